@@ -392,4 +392,70 @@ def normBoundary : List Medium → List Medium
   | [m] => [{ m with circular := false }]
   | ms => ms
 
+
+/-! ### the fields of `--attach-load` and `--excitation-pulse` as `main` reads them
+
+A field (the text between two commas) is an integer, the keyword `all`, or something else. -/
+
+inductive Fld where
+  | int (v : Int)
+  | all
+  | junk
+deriving Repr, DecidableEq, Inhabited
+
+def Fld.int? : Fld → Option Int
+  | .int v => some v
+  | _ => none
+
+/-- `--attach-load=L,P[,T]`: load number, pulse (or `all`), optional tag → (0-based load index, 0-based pulse or none,
+tag or none) as handed to `register_load` -/
+def parseAttach (nloads : Nat) (fs : List Fld) : Except String (Nat × Option Int × Option Int) :=
+  match fs with
+  | [l, p] | [l, p, _] =>
+    let tagFld : Option Fld := match fs with | [_, _, t] => some t | _ => none
+    match l.int? with
+    | none => .error "attach-load-not-a-number"
+    | some lv =>
+      let pOpt : Except String (Option Int) :=
+        match p with
+        | .all => .ok none
+        | .int v => .ok (some (v - 1))
+        | .junk => .error "attach-load-not-a-number"
+      match pOpt with
+      | .error e => .error e
+      | .ok pv =>
+        let tOpt : Except String (Option Int) :=
+          match tagFld with
+          | none => .ok none
+          | some (.int v) => .ok (some v)
+          | some _ => .error "attach-load-not-a-number"
+        match tOpt with
+        | .error e => .error e
+        | .ok tv =>
+          if lv < 1 ∨ (nloads : Int) < lv then .error "load-index-out-of-range"
+          else .ok ((lv - 1).toNat, pv, tv)
+  | _ => .error "attach-load-needs-2-3-parameters"
+
+/-- the rule of the seeded change C20-f: the keyword is accepted in every field (`None`), the load number is then
+`None - 1` -/
+def parseAttachLax (fs : List Fld) : Bool :=
+  match fs with
+  | [.all, _] | [.all, _, _] => true      -- reaches `att [0] - 1` with `att [0] = None`: TypeError
+  | _ => false
+
+/-- the fields `as_cmdline_load_attach` writes for one attachment of load `i` (1-based) -/
+def showAttach (i : Nat) : Att → List Fld
+  | .pulse k => [.int i, .int k]
+  | .rel k t => [.int i, .int k, .int t]
+  | .allObj t => [.int i, .all, .int t]
+  | .all => [.int i, .all]
+
+/-- `--excitation-pulse=P[,T]` → (0-based pulse, tag or none) -/
+def parseExcitation (fs : List Fld) : Except String (Int × Option Int) :=
+  match fs with
+  | [.int p] => .ok (p - 1, none)
+  | [.int p, .int t] => .ok (p - 1, some t)
+  | [_] | [_, _] => .error "invalid-pulse-for-excitation"
+  | _ => .error "invalid-number-of-pulse-index-parameters"
+
 end Pmn.Cmd
